@@ -429,12 +429,24 @@ def fam_trap(tier, rng):
                     b.label("H"), tok(b, "h", {"k": "err"}), b.let(gq, lit("I", 2)), b.resume("bare")]
             out.append({"fam": "trap-resume-in-proc:%s/%d" % (kind, depth), "prog": prog(main, subs)})
     # failing block headers with RESUME (re-execute) and RESUME label
-    for hk in ("if", "while", "for", "select", "dotop"):
+    for hk in ("if", "while", "for", "select", "dotop", "elseif", "elseif2", "case", "case2", "caserange", "dobot"):
         for mode in ("resume", "resumelabel", "none"):
             b = B()
             q = var("Q", "I")
             cond = bin_(">", bin_("/", lit("I", 6), q), lit("I", 100))
-            if hk == "if":
+            w = var("W", "I")
+            if hk in ("elseif", "elseif2"):
+                # the conditions before the failing one do not depend on what the handler repairs
+                arms = [(bin_("=", w, lit("I", 5)), [tok(b, "then")])] + ([(bin_("=", w, lit("I", 6)), [tok(b, "second")])] if hk == "elseif2" else []) + \
+                       [(bin_(">", bin_("/", lit("I", 6), q), lit("I", 2)), [tok(b, "elseif")])]
+                st = b.if_(arms, [tok(b, "else")])
+            elif hk in ("case", "case2", "caserange"):
+                tests = {"case": [eqt(bin_("/", lit("I", 6), q))], "case2": [eqt(lit("I", 4)), eqt(bin_("/", lit("I", 6), q))],
+                         "caserange": [rtest(lit("I", 5), bin_("/", lit("I", 12), q))]}[hk]
+                st = b.select(lit("I", 6), [([eqt(lit("I", 1))], [tok(b, "one")]), (tests, [tok(b, "case")])], [tok(b, "other")])
+            elif hk == "dobot":
+                st = b.do("bot", "until", bin_(">", bin_("/", lit("I", 6), q), lit("I", 2)), [b.let(w, bin_("+", w, lit("I", 1))), tok(b, "body", w)])
+            elif hk == "if":
                 st = b.if_([(cond, [tok(b, "then")])], [tok(b, "else")])
             elif hk == "while":
                 st = b.while_(cond, [tok(b, "body")])
@@ -543,6 +555,43 @@ def fam_trap_first(tier, rng):
 
 
 FAMILIES.append(fam_trap_first)
+
+
+def fam_partial(tier, rng):
+    """READ with several variables when the data runs out in the middle: the variables before the failing one have their
+    values; RETURN inside a procedure while only its callers have a GOSUB pending: error 3, and the callers' GOSUB still stands"""
+    out = []
+    for ndata in (0, 1, 2):
+        for mode in ("resumenext", "onerrornext", "none"):
+            b = B()
+            a, c, d = var("A", "I"), var("C", "$"), var("D", "I")
+            main = [b.data(*[num(7), lit("$", "x")][:ndata])] if ndata else []
+            main += ([b.onerror("goto", "H")] if mode == "resumenext" else [b.onerror("next")] if mode == "onerrornext" else [])
+            main += [tok(b, "a"), b.read(a, c, d), tok(b, "after", a, c, d), b.end(), b.label("H"), tok(b, "h", {"k": "err"}), b.resume("next")]
+            out.append({"fam": "read-partial:%d/%s" % (ndata, mode), "prog": prog(main)})
+    for callee in ("sub", "fun", "subsub"):
+        for mode in ("none", "resumenext", "onerrornext"):
+            b = B()
+            body = [tok(b, "in"), b.ret(), tok(b, "afterret")]
+            if callee == "fun":
+                subs = [fun("F", "I", [], body + [b.let(var("F", "I"), lit("I", 4))])]
+                fc = fcall("F", "I", [], 0)
+                call = tok(b, "f", fc)
+                fc["sid"] = call["id"]
+            elif callee == "sub":
+                subs = [sub("S", [], body)]
+                call = b.call("S", [])
+            else:
+                subs = [sub("S", [], [b.call("T", []), tok(b, "s")]), sub("T", [], body)]
+                call = b.call("S", [])
+            main = ([b.onerror("goto", "H")] if mode == "resumenext" else [b.onerror("next")] if mode == "onerrornext" else []) + \
+                   [b.gosub("R"), tok(b, "back"), b.end(), b.label("R"), tok(b, "r"), call, tok(b, "rdone"), b.ret(),
+                    b.label("H"), tok(b, "h", {"k": "err"}), b.resume("next")]
+            out.append({"fam": "return-in-proc:%s/%s" % (callee, mode), "prog": prog(main, subs)})
+    return out
+
+
+FAMILIES.append(fam_partial)
 
 
 def cases(tier, seed):
